@@ -35,23 +35,20 @@ impl<T: RealNumber> KMeans<T> {
             // parameter validation
             (parameters.k < 2 || parameters.max_iter == 0) ==> r is Err, //# fit-rejects-k-below-2-and-zero-iterations
             (parameters.k >= 2 && parameters.max_iter >= 1) ==> r is Ok, //# fit-succeeds-on-valid-parameters
-            r is Ok ==> {
-                let m = r->Ok_0;
-                let n = data.nrows_spec();
-                let d = data.ncols_spec();
-                let k = parameters.k as int;
-                // k centroids, each of the dimension of the data; one size per cluster
-                &&& m.wf() && m.k == k && m.dim() == d //# fit-returns-k-centroids-of-the-data-dimension
-                // the stored assignment gives every training row a cluster
-                &&& m._y@.len() == n && (forall|i: int| 0 <= i < n ==> #[trigger] m._y@[i] < k) //# fit-assigns-every-row-to-a-cluster
-                // sizes are the counts of that assignment ...
-                &&& (forall|c: int| 0 <= c < k ==> #[trigger] m.size@[c] == count_eq(m._y@, c, n)) //# fit-sizes-are-the-counts-of-the-last-assignment
-                // ... and sum to n
-                &&& sum_sizes(m.size@, k) == n //# fit-sizes-sum-to-n
-                // every centroid with members is (column sums of the rows of the stored assignment) / (its size);
-                // `sums` are those of the LAST clustering call, on the early-exit path as well
-                &&& exists|sums: Seq<Seq<T>>| #[trigger] centroids_are_means(mat_rows(data), m._y@, sums, m.size@, deep(m.centroids@), k, d) //# fit-centroid-with-members-is-the-mean-of-its-last-assigned-rows
-            },
+            // k centroids, each of the dimension of the data; one size per cluster (wf() is what predict requires)
+            r is Ok ==> r->Ok_0.wf() && r->Ok_0.k == parameters.k && r->Ok_0.dim() == data.ncols_spec(), //# fit-returns-k-centroids-of-the-data-dimension
+            // the stored assignment gives every training row a cluster
+            r is Ok ==> r->Ok_0._y@.len() == data.nrows_spec(), //# fit-assignment-has-one-label-per-row
+            r is Ok ==> forall|i: int| 0 <= i < data.nrows_spec() ==> #[trigger] r->Ok_0._y@[i] < parameters.k, //# fit-assigns-every-row-to-a-cluster
+            // sizes are the counts of that assignment ...
+            r is Ok ==> forall|c: int| 0 <= c < parameters.k
+                ==> #[trigger] r->Ok_0.size@[c] == count_eq(r->Ok_0._y@, c, data.nrows_spec()), //# fit-sizes-are-the-counts-of-the-last-assignment
+            // ... and sum to n
+            r is Ok ==> sum_sizes(r->Ok_0.size@, parameters.k as int) == data.nrows_spec(), //# fit-sizes-sum-to-n
+            // every centroid with members is (column sums of the rows of the stored assignment) / (its size);
+            // `sums` are those of the LAST clustering call, on the early-exit path as well
+            r is Ok ==> exists|sums: Seq<Seq<T>>| #[trigger] centroids_are_means(mat_rows(data), r->Ok_0._y@, sums, r->Ok_0.size@,
+                deep(r->Ok_0.centroids@), parameters.k as int, data.ncols_spec()), //# fit-centroid-with-members-is-the-mean-of-its-last-assigned-rows
 //@enter
         proof { T::ops_total(); T::from_self_is_identity(); }
         let ghost rows = mat_rows(data);
@@ -141,9 +138,40 @@ impl<T: RealNumber> KMeans<T> {
 //@before Ok(KMeans {
         proof {
             let k = parameters.k as int;
-            assert(centroids_are_means(rows, y@, deep(sums@), size@, deep(centroids@), k, d as int)); //# returned-centroids-belong-to-the-returned-assignment
+            let sw = deep(sums@);       // the witness: the sums delivered by the last clustering call
+            let cw = deep(centroids@);
+            assert(done);
+            assert(centroids_are_means(rows, y@, sw, size@, cw, k, d as int)); //# returned-centroids-belong-to-the-returned-assignment
+            assert(cluster_stats(rows, y@, sw, size@, k, d as int));
+            assert(rows.len() == n);
+            // shape
+            assert(centroids@.len() == k && size@.len() == k && k >= 2);
+            assert forall|c: int| 0 <= c < k implies (#[trigger] centroids@[c])@.len() == centroids@[0]@.len() by {
+                assert(centroids@[c]@.len() == d);
+                assert(centroids@[0]@.len() == d);
+            }
+            assert(centroids@[0]@.len() == d);
+            // assignment and sizes
+            assert(y@.len() == n);
+            assert forall|i: int| 0 <= i < n implies #[trigger] y@[i] < k by {}
+            assert forall|c: int| 0 <= c < k implies #[trigger] size@[c] == count_eq(y@, c, n as int) by {}
             lemma_sum_counts(y@, n as int, k);
             lemma_sum_sizes(size@, y@, n as int, k);
+            assert(sum_sizes(size@, k) == n);
+            // the existential of the postcondition, in its own terms, with the explicit witness sw
+            assert(n == data.nrows_spec() && d == data.ncols_spec() && rows == mat_rows(data));
+            assert(centroids_are_means(mat_rows(data), y@, sw, size@, deep(centroids@), parameters.k as int, data.ncols_spec()));
+            // ... and once more over the fields of the value about to be returned (ghost copy of the struct expression below)
+            let res = KMeans::<T> { k: parameters.k, _y: y, size: size, _distortion: distortion, centroids: centroids };
+            assert(res._y@ == y@ && res.size@ == size@ && res.centroids@ == centroids@);
+            assert(res.wf() && res.k == parameters.k && res.dim() == data.ncols_spec());
+            assert(res._y@.len() == data.nrows_spec());
+            assert forall|i: int| 0 <= i < data.nrows_spec() implies #[trigger] res._y@[i] < parameters.k by {}
+            assert forall|c: int| 0 <= c < parameters.k implies #[trigger] res.size@[c] == count_eq(res._y@, c, data.nrows_spec()) by {}
+            assert(sum_sizes(res.size@, parameters.k as int) == data.nrows_spec());
+            assert(centroids_are_means(mat_rows(data), res._y@, sw, res.size@, deep(res.centroids@), parameters.k as int, data.ncols_spec()));
+            assert(exists|s: Seq<Seq<T>>| #[trigger] centroids_are_means(mat_rows(data), res._y@, s, res.size@, deep(res.centroids@),
+                parameters.k as int, data.ncols_spec()));
         }
 //@end
 }
